@@ -5,22 +5,20 @@
    * escape         appendString of internal/codec/stdlib.copy.go (copied from protojson)
    * print_Z        strconv.FormatInt / FormatUint (base 10)
    * parse_Z        strconv.ParseInt(s, 10, _) without the range check
-   * json, print    JSON trees (ordered members, number literals kept as text) and
+   * jvalue, print    JSON trees (ordered members, number literals kept as text) and
                     the compact printer
-   * parse_json     a strict RFC 8259 recogniser/parser (whitespace allowed, number
+   * strict_parse   a strict RFC 8259 recogniser/parser (whitespace allowed, number
                     grammar enforced, raw control characters and invalid UTF-8 in
                     strings rejected, no trailing non-whitespace)
    Definitions first, then their lemmas (escape_spec, parse_str_print, parse_print,
    parse_print_Z, print_Z_valid_number). *)
 From Coq Require Import String List Arith NArith ZArith Bool Lia ZifyN ZifyNat ZifyBool.
-From J5V.lib Require Import Radix Outcome.
+From J5V.lib Require Import Radix Outcome Json.
 Import ListNotations.
 Local Open Scope N_scope.
 Local Open Scope bool_scope.
 
 (* ------------------------------------------------------------------ UTF-8 *)
-Definition cont (b : N) : bool := (128 <=? b) && (b <=? 191).
-
 (* width of the well-formed UTF-8 sequence at the head of [s]; None is
    utf8.DecodeRuneInString's (RuneError, 1) (or the empty string) *)
 Definition utf8_len (s : list N) : option nat :=
@@ -66,13 +64,6 @@ Fixpoint valid_utf8_fuel (fuel : nat) (s : list N) : bool :=
     end
   end.
 Definition valid_utf8 (s : list N) : bool := valid_utf8_fuel (length s) s.
-
-(* UTF-8 encoding of a scalar value (used for \uXXXX escapes when reading) *)
-Definition utf8_encode (c : N) : list N :=
-  if c <? 128 then [c]
-  else if c <? 2048 then [192 + c / 64; 128 + c mod 64]
-  else if c <? 65536 then [224 + c / 4096; 128 + (c / 64) mod 64; 128 + c mod 64]
-  else [240 + c / 262144; 128 + (c / 4096) mod 64; 128 + (c / 64) mod 64; 128 + c mod 64].
 
 (* ------------------------------------------------------------------ appendString *)
 Definition hex_lower (d : N) : N := if d <? 10 then 48 + d else 87 + d.
@@ -126,8 +117,6 @@ Definition print_Z (z : Z) : list N :=
   | Zneg p => 45 :: digits_of (Npos p)
   end.
 
-Definition is_digit (c : N) : bool := (48 <=? c) && (c <=? 57).
-
 Definition parse_N (s : list N) : option N :=
   match s with
   | [] => None
@@ -145,14 +134,6 @@ Definition parse_Z (s : list N) : option Z :=
   end.
 
 (* ------------------------------------------------------------------ JSON trees *)
-Inductive json :=
-| JNull
-| JBool (b : bool)
-| JNum (lit : list N)            (* the literal text *)
-| JStr (s : list N)              (* decoded bytes (UTF-8) *)
-| JArr (l : list json)
-| JObj (l : list (list N * json)).
-
 Fixpoint join (sep : N) (l : list (list N)) : list N :=
   match l with
   | [] => []
@@ -162,7 +143,7 @@ Fixpoint join (sep : N) (l : list (list N)) : list N :=
 
 Definition print_str (s : list N) : list N := 34 :: esc_bytes s ++ [34].
 
-Fixpoint print (j : json) : list N :=
+Fixpoint print (j : jvalue) : list N :=
   match j with
   | JNull => [110; 117; 108; 108]
   | JBool true => [116; 114; 117; 101]
@@ -174,26 +155,6 @@ Fixpoint print (j : json) : list N :=
   end.
 
 (* ------------------------------------------------------------------ strict reader *)
-Definition is_ws (c : N) : bool := (c =? 32) || (c =? 9) || (c =? 10) || (c =? 13).
-
-Fixpoint skip_ws (s : list N) : list N :=
-  match s with
-  | c :: r => if is_ws c then skip_ws r else s
-  | [] => []
-  end.
-
-Definition hex_val (c : N) : option N :=
-  if (48 <=? c) && (c <=? 57) then Some (c - 48)
-  else if (97 <=? c) && (c <=? 102) then Some (c - 87)
-  else if (65 <=? c) && (c <=? 70) then Some (c - 55)
-  else None.
-
-Definition hex4 (a b c d : N) : option N :=
-  match hex_val a, hex_val b, hex_val c, hex_val d with
-  | Some x, Some y, Some z, Some w => Some (((x * 16 + y) * 16 + z) * 16 + w)
-  | _, _, _, _ => None
-  end.
-
 Definition cons_fst {A} (xs : list N) (o : option (list N * A)) : option (list N * A) :=
   match o with
   | Some (s, r) => Some (xs ++ s, r)
@@ -201,7 +162,7 @@ Definition cons_fst {A} (xs : list N) (o : option (list N * A)) : option (list N
   end.
 
 (* after the opening quote: decoded bytes and the text after the closing quote.
-   Lone surrogate escapes become U+FFFD (as encoding/json does). *)
+   Lone surrogate escapes become U+FFFD (as encoding/jvalue does). *)
 Fixpoint parse_str (fuel : nat) (s : list N) : option (list N * list N) :=
   match fuel with
   | O => None
@@ -234,14 +195,14 @@ Fixpoint parse_str (fuel : nat) (s : list N) : option (list N * list N) :=
                     match hex4 a2 b2 c2 d2 with
                     | Some v =>
                         if (56320 <=? v) && (v <? 57344)
-                        then cons_fst (utf8_encode (65536 + (u - 55296) * 1024 + (v - 56320))) (parse_str f r2)
+                        then cons_fst (encode_rune (65536 + (u - 55296) * 1024 + (v - 56320))) (parse_str f r2)
                         else cons_fst [239; 191; 189] (parse_str f r1)
                     | None => cons_fst [239; 191; 189] (parse_str f r1)
                     end
                   | _ => cons_fst [239; 191; 189] (parse_str f r1)
                   end
                 else if (56320 <=? u) && (u <? 57344) then cons_fst [239; 191; 189] (parse_str f r1)
-                else cons_fst (utf8_encode u) (parse_str f r1)
+                else cons_fst (encode_rune u) (parse_str f r1)
               end
             | _ => None
             end
@@ -311,14 +272,7 @@ Fixpoint span_num (s : list N) : list N * list N :=
   | [] => ([], [])
   end.
 
-Fixpoint strip_prefix (p s : list N) : option (list N) :=
-  match p, s with
-  | [], _ => Some s
-  | x :: p', y :: s' => if x =? y then strip_prefix p' s' else None
-  | _ :: _, [] => None
-  end.
-
-Fixpoint pval (fuel : nat) (s : list N) {struct fuel} : option (json * list N) :=
+Fixpoint sp_value (fuel : nat) (s : list N) {struct fuel} : option (jvalue * list N) :=
   match fuel with
   | O => None
   | S f =>
@@ -330,7 +284,7 @@ Fixpoint pval (fuel : nat) (s : list N) {struct fuel} : option (json * list N) :
         | [] => None
         | c1 :: r' =>
           if c1 =? 125 then Some (JObj [], r')
-          else match pmembers f (c1 :: r') with
+          else match sp_members f (c1 :: r') with
                | Some (l, r2) => Some (JObj l, r2)
                | None => None
                end
@@ -340,7 +294,7 @@ Fixpoint pval (fuel : nat) (s : list N) {struct fuel} : option (json * list N) :
         | [] => None
         | c1 :: r' =>
           if c1 =? 93 then Some (JArr [], r')
-          else match pelems f (c1 :: r') with
+          else match sp_elems f (c1 :: r') with
                | Some (l, r2) => Some (JArr l, r2)
                | None => None
                end
@@ -362,7 +316,7 @@ Fixpoint pval (fuel : nat) (s : list N) {struct fuel} : option (json * list N) :
     end
   end
 (* "key" : value ( , "key" : value )* }   — [s] already stripped of leading whitespace *)
-with pmembers (fuel : nat) (s : list N) {struct fuel} : option (list (list N * json) * list N) :=
+with sp_members (fuel : nat) (s : list N) {struct fuel} : option (list (list N * jvalue) * list N) :=
   match fuel with
   | O => None
   | S f =>
@@ -376,14 +330,14 @@ with pmembers (fuel : nat) (s : list N) {struct fuel} : option (list (list N * j
           | [] => None
           | c2 :: r2 =>
             if c2 =? 58 then
-              match pval f r2 with
+              match sp_value f r2 with
               | Some (v, r3) =>
                 match skip_ws r3 with
                 | [] => None
                 | c4 :: r4 =>
                   if c4 =? 125 then Some ([(k, v)], r4)
                   else if c4 =? 44 then
-                    match pmembers f (skip_ws r4) with
+                    match sp_members f (skip_ws r4) with
                     | Some (l, r5) => Some ((k, v) :: l, r5)
                     | None => None
                     end
@@ -399,18 +353,18 @@ with pmembers (fuel : nat) (s : list N) {struct fuel} : option (list (list N * j
     end
   end
 (* value ( , value )* ] *)
-with pelems (fuel : nat) (s : list N) {struct fuel} : option (list json * list N) :=
+with sp_elems (fuel : nat) (s : list N) {struct fuel} : option (list jvalue * list N) :=
   match fuel with
   | O => None
   | S f =>
-    match pval f s with
+    match sp_value f s with
     | Some (v, r1) =>
       match skip_ws r1 with
       | [] => None
       | c2 :: r2 =>
         if c2 =? 93 then Some ([v], r2)
         else if c2 =? 44 then
-          match pelems f r2 with
+          match sp_elems f r2 with
           | Some (l, r3) => Some (v :: l, r3)
           | None => None
           end
@@ -420,8 +374,8 @@ with pelems (fuel : nat) (s : list N) {struct fuel} : option (list json * list N
     end
   end.
 
-Definition parse_json (s : list N) : option json :=
-  match pval (S (length s)) s with
+Definition strict_parse (s : list N) : option jvalue :=
+  match sp_value (S (length s)) s with
   | Some (j, r) => match skip_ws r with [] => Some j | _ => None end
   | None => None
   end.
@@ -621,7 +575,7 @@ Proof.
     rewrite hex_ctl by lia.
     replace ((55296 <=? b) && (b <? 56320)) with false by lia.
     replace ((56320 <=? b) && (b <? 57344)) with false by lia.
-    unfold utf8_encode. replace (b <? 128) with true by lia. reflexivity.
+    unfold encode_rune. replace (b <? 128) with true by lia. reflexivity.
   - cbn [app parse_str]. rewrite E34, E92, E32. replace (b <? 128) with true by lia. reflexivity.
 Qed.
 
@@ -660,7 +614,7 @@ Proof.
 Qed.
 
 (* ---------------------------------------------------------------- trees *)
-Fixpoint wfb (j : json) : bool :=
+Fixpoint wfb (j : jvalue) : bool :=
   match j with
   | JNull | JBool _ => true
   | JNum lit => valid_number lit
@@ -670,25 +624,25 @@ Fixpoint wfb (j : json) : bool :=
   end.
 
 Section json_ind2.
-  Variable P : json -> Prop.
+  Variable P : jvalue -> Prop.
   Hypothesis Hnull : P JNull.
   Hypothesis Hbool : forall b, P (JBool b).
   Hypothesis Hnum : forall lit, P (JNum lit).
   Hypothesis Hstr : forall s, P (JStr s).
   Hypothesis Harr : forall l, Forall P l -> P (JArr l).
   Hypothesis Hobj : forall l, Forall (fun kv => P (snd kv)) l -> P (JObj l).
-  Fixpoint json_ind2 (j : json) : P j :=
+  Fixpoint json_ind2 (j : jvalue) : P j :=
     match j with
     | JNull => Hnull
     | JBool b => Hbool b
     | JNum lit => Hnum lit
     | JStr s => Hstr s
-    | JArr l => Harr l ((fix go (l : list json) : Forall P l :=
+    | JArr l => Harr l ((fix go (l : list jvalue) : Forall P l :=
                            match l with
                            | [] => Forall_nil _
                            | x :: r => Forall_cons x (json_ind2 x) (go r)
                            end) l)
-    | JObj l => Hobj l ((fix go (l : list (list N * json)) : Forall (fun kv => P (snd kv)) l :=
+    | JObj l => Hobj l ((fix go (l : list (list N * jvalue)) : Forall (fun kv => P (snd kv)) l :=
                            match l with
                            | [] => Forall_nil _
                            | x :: r => Forall_cons x (json_ind2 (snd x)) (go r)
@@ -797,7 +751,7 @@ Proof.
     reflexivity.
 Qed.
 
-Definition member_text (kv : list N * json) : list N := print_str (fst kv) ++ 58 :: print (snd kv).
+Definition member_text (kv : list N * jvalue) : list N := print_str (fst kv) ++ 58 :: print (snd kv).
 
 Lemma print_obj l : print (JObj l) = 123 :: join 44 (map member_text l) ++ [125].
 Proof. reflexivity. Qed.
@@ -805,7 +759,7 @@ Lemma print_arr l : print (JArr l) = 91 :: join 44 (map print l) ++ [93].
 Proof. reflexivity. Qed.
 
 (* first character of a printed value: never whitespace, and tells the reader which arm to take *)
-Definition head_class (j : json) (c : N) : Prop :=
+Definition head_class (j : jvalue) (c : N) : Prop :=
   match j with
   | JNull => c = 110 | JBool true => c = 116 | JBool false => c = 102
   | JNum _ => c = 45 \/ is_digit c = true
@@ -824,9 +778,9 @@ Proof.
   - rewrite print_obj. eexists _, _; split; reflexivity.
 Qed.
 
-Lemma head_not_ws j c : head_class j c -> is_ws c = false.
+Lemma head_not_ws j c : head_class j c -> is_space c = false.
 Proof.
-  destruct j as [|[]|lit|s|l|l]; cbn [head_class]; unfold is_ws, is_digit; lia.
+  destruct j as [|[]|lit|s|l|l]; cbn [head_class]; unfold is_space, is_digit; lia.
 Qed.
 
 Lemma join_len_cons x r : r <> [] ->
@@ -838,37 +792,37 @@ Qed.
 Lemma join_cons x y r : join 44 (x :: y :: r) = x ++ 44 :: join 44 (y :: r).
 Proof. reflexivity. Qed.
 
-Definition P_val (j : json) : Prop :=
+Definition P_val (j : jvalue) : Prop :=
   wfb j = true -> forall f rest, rest_ok rest -> (length (print j) <= f)%nat ->
-  pval f (print j ++ rest) = Some (j, rest).
+  sp_value f (print j ++ rest) = Some (j, rest).
 
-Lemma pelems_print l : l <> [] -> Forall P_val l -> forallb wfb l = true ->
+Lemma sp_elems_print l : l <> [] -> Forall P_val l -> forallb wfb l = true ->
   forall f rest, (length (join 44 (map print l)) + 1 <= f)%nat ->
-  pelems f (join 44 (map print l) ++ 93 :: rest) = Some (l, rest).
+  sp_elems f (join 44 (map print l) ++ 93 :: rest) = Some (l, rest).
 Proof.
   induction l as [|x r IH]; [congruence|]. intros _ HP Hwf f rest Hf.
   inversion HP as [|? ? Hx Hr]; subst. cbn [forallb] in Hwf. apply andb_true_iff in Hwf as [Hwx Hwr].
-  destruct f as [|f]; [lia|]. cbn [pelems].
+  destruct f as [|f]; [lia|]. cbn [sp_elems].
   destruct r as [|y r'].
   - cbn [map join] in *. rewrite (Hx Hwx f (93 :: rest)); [|cbn; auto|lia].
-    cbn [skip_ws]. change (is_ws 93) with false. cbv iota. change (93 =? 93) with true. reflexivity.
+    cbn [skip_ws]. change (is_space 93) with false. cbv iota. change (93 =? 93) with true. reflexivity.
   - cbn [map] in *. rewrite join_cons in *. rewrite <- app_assoc. cbn [app].
     rewrite app_length in Hf. cbn [length] in Hf.
     rewrite (Hx Hwx f (44 :: join 44 (print y :: map print r') ++ 93 :: rest)); [|cbn; auto|lia].
-    cbn [skip_ws]. change (is_ws 44) with false. cbv iota. change (44 =? 93) with false. change (44 =? 44) with true.
+    cbn [skip_ws]. change (is_space 44) with false. cbv iota. change (44 =? 93) with false. change (44 =? 44) with true.
     cbv iota. rewrite (IH ltac:(congruence) Hr Hwr f rest) by lia. reflexivity.
 Qed.
 
-Lemma pmembers_print l : l <> [] -> Forall (fun kv => P_val (snd kv)) l ->
+Lemma sp_members_print l : l <> [] -> Forall (fun kv => P_val (snd kv)) l ->
   forallb (fun kv => valid_utf8 (fst kv) && wfb (snd kv)) l = true ->
   forall f rest, (length (join 44 (map member_text l)) + 1 <= f)%nat ->
-  pmembers f (join 44 (map member_text l) ++ 125 :: rest) = Some (l, rest).
+  sp_members f (join 44 (map member_text l) ++ 125 :: rest) = Some (l, rest).
 Proof.
   induction l as [|[k v] r IH]; [congruence|]. intros _ HP Hwf f rest Hf.
   inversion HP as [|? ? Hx Hr]; subst. cbn [forallb fst snd] in Hwf, Hx.
   apply andb_true_iff in Hwf as [Hwx Hwr]. apply andb_true_iff in Hwx as [Hk Hv].
   apply valid_utf8_iff in Hk.
-  destruct f as [|f]; [lia|]. cbn [pmembers].
+  destruct f as [|f]; [lia|]. cbn [sp_members].
   assert (Hmem : forall tail, member_text (k, v) ++ tail =
             34 :: esc_bytes k ++ 34 :: 58 :: print v ++ tail).
   { intros tail. unfold member_text, print_str. cbn [fst snd app]. rewrite <- !app_assoc. reflexivity. }
@@ -878,36 +832,36 @@ Proof.
   - cbn [map join] in *. rewrite Hmem. change (34 =? 34) with true. cbv iota.
     rewrite parse_str_print; [|exact Hk|].
     2:{ rewrite app_length. pose proof (esc_bytes_len k). cbn [length]. lia. }
-    cbn [skip_ws]. change (is_ws 58) with false. cbv iota. change (58 =? 58) with true. cbv iota.
+    cbn [skip_ws]. change (is_space 58) with false. cbv iota. change (58 =? 58) with true. cbv iota.
     rewrite (Hx Hv f (125 :: rest)); [|cbn; auto|lia].
-    cbn [skip_ws]. change (is_ws 125) with false. cbv iota. change (125 =? 125) with true. reflexivity.
+    cbn [skip_ws]. change (is_space 125) with false. cbv iota. change (125 =? 125) with true. reflexivity.
   - cbn [map] in *. rewrite join_cons in *. rewrite <- app_assoc. cbn [app]. rewrite Hmem.
     change (34 =? 34) with true. cbv iota.
     rewrite parse_str_print; [|exact Hk|].
     2:{ rewrite app_length. pose proof (esc_bytes_len k). cbn [length]. lia. }
-    cbn [skip_ws]. change (is_ws 58) with false. cbv iota. change (58 =? 58) with true. cbv iota.
+    cbn [skip_ws]. change (is_space 58) with false. cbv iota. change (58 =? 58) with true. cbv iota.
     rewrite app_length in Hf. cbn [length] in Hf.
     rewrite (Hx Hv f (44 :: join 44 (member_text y :: map member_text r') ++ 125 :: rest)); [|cbn; auto|lia].
-    cbn [skip_ws]. change (is_ws 44) with false. cbv iota. change (44 =? 125) with false. change (44 =? 44) with true.
+    cbn [skip_ws]. change (is_space 44) with false. cbv iota. change (44 =? 125) with false. change (44 =? 44) with true.
     cbv iota.
     assert (Hsk : skip_ws (join 44 (member_text y :: map member_text r') ++ 125 :: rest) =
                   join 44 (member_text y :: map member_text r') ++ 125 :: rest).
     { destruct r' as [|z r'']; cbn [map join]; unfold member_text at 1, print_str; cbn [app skip_ws];
-        change (is_ws 34) with false; reflexivity. }
+        change (is_space 34) with false; reflexivity. }
     rewrite Hsk. rewrite (IH ltac:(congruence) Hr Hwr f rest) by lia. reflexivity.
 Qed.
 
-Lemma skip_ws_head c t : is_ws c = false -> skip_ws (c :: t) = c :: t.
+Lemma skip_ws_head c t : is_space c = false -> skip_ws (c :: t) = c :: t.
 Proof. intros H. cbn [skip_ws]. rewrite H. reflexivity. Qed.
 
-Theorem pval_print : forall j, P_val j.
+Theorem sp_value_print : forall j, P_val j.
 Proof.
   apply json_ind2; unfold P_val.
   - intros _ f rest Hr Hf. destruct f; [cbn in Hf; lia|]. reflexivity.
   - intros b _ f rest Hr Hf. destruct f; [destruct b; cbn in Hf; lia|]. destruct b; reflexivity.
   - intros lit Hw f rest Hr Hf. cbn [wfb] in Hw. pose proof (valid_number_chars _ Hw) as [Hch (c & r & -> & Hc)].
-    destruct f; [cbn in Hf; lia|]. cbn [print app pval].
-    assert (Hws : is_ws c = false) by (unfold is_ws, is_digit in *; lia).
+    destruct f; [cbn in Hf; lia|]. cbn [print app sp_value].
+    assert (Hws : is_space c = false) by (unfold is_space, is_digit in *; lia).
     rewrite skip_ws_head by exact Hws.
     replace (c =? 123) with false by (unfold is_digit in *; lia).
     replace (c =? 91) with false by (unfold is_digit in *; lia).
@@ -918,47 +872,47 @@ Proof.
     change (c :: r ++ rest) with ((c :: r) ++ rest). rewrite span_num_app by assumption.
     rewrite Hw. reflexivity.
   - intros s Hw f rest Hr Hf. cbn [wfb] in Hw. apply valid_utf8_iff in Hw.
-    destruct f; [cbn in Hf; lia|]. cbn [print]. unfold print_str. cbn [app pval skip_ws].
-    change (is_ws 34) with false. cbv iota. change (34 =? 123) with false. change (34 =? 91) with false.
+    destruct f; [cbn in Hf; lia|]. cbn [print]. unfold print_str. cbn [app sp_value skip_ws].
+    change (is_space 34) with false. cbv iota. change (34 =? 123) with false. change (34 =? 91) with false.
     change (34 =? 34) with true. cbv iota. rewrite <- app_assoc. cbn [app].
     rewrite parse_str_print; [reflexivity|exact Hw|].
     rewrite app_length. pose proof (esc_bytes_len s). cbn [length]. lia.
   - intros l HP Hw f rest Hr Hf. cbn [wfb] in Hw. rewrite print_arr in *.
-    destruct f; [cbn in Hf; lia|]. cbn [app pval skip_ws]. change (is_ws 91) with false. cbv iota.
+    destruct f; [cbn in Hf; lia|]. cbn [app sp_value skip_ws]. change (is_space 91) with false. cbv iota.
     change (91 =? 123) with false. change (91 =? 91) with true. cbv iota.
     destruct l as [|x r].
-    + cbn [map join app skip_ws]. change (is_ws 93) with false. cbv iota. change (93 =? 93) with true. reflexivity.
+    + cbn [map join app skip_ws]. change (is_space 93) with false. cbv iota. change (93 =? 93) with true. reflexivity.
     + rewrite <- app_assoc. cbn [app].
       assert (Hx : wfb x = true) by (cbn [forallb] in Hw; apply andb_true_iff in Hw as [H _]; exact H).
       destruct (print_head x Hx) as (c & t & Hp & Hc).
       assert (Hj : exists t', join 44 (map print (x :: r)) = c :: t').
       { cbn [map]. destruct r as [|y r']; cbn [map join]; rewrite Hp; eexists; reflexivity. }
       destruct Hj as [t' Hj]. 
-      pose proof (pelems_print (x :: r) ltac:(congruence) HP Hw f rest) as Hpe.
+      pose proof (sp_elems_print (x :: r) ltac:(congruence) HP Hw f rest) as Hpe.
       rewrite Hj in *. cbn [app]. rewrite skip_ws_head by (eapply head_not_ws; exact Hc).
       assert (Hne : (c =? 93) = false).
       { destruct x as [|[]|lit|s|l'|l']; cbn [head_class] in Hc; unfold is_digit in Hc; lia. }
       rewrite Hne. cbn [app] in Hpe. rewrite Hpe; [reflexivity|].
       cbn [length] in Hf. rewrite app_length in Hf. cbn [length] in Hf. cbn [length]. lia.
   - intros l HP Hw f rest Hr Hf. cbn [wfb] in Hw. rewrite print_obj in *.
-    destruct f; [cbn in Hf; lia|]. cbn [app pval skip_ws]. change (is_ws 123) with false. cbv iota.
+    destruct f; [cbn in Hf; lia|]. cbn [app sp_value skip_ws]. change (is_space 123) with false. cbv iota.
     change (123 =? 123) with true. cbv iota.
     destruct l as [|x r].
-    + cbn [map join app skip_ws]. change (is_ws 125) with false. cbv iota. change (125 =? 125) with true. reflexivity.
+    + cbn [map join app skip_ws]. change (is_space 125) with false. cbv iota. change (125 =? 125) with true. reflexivity.
     + rewrite <- app_assoc. cbn [app].
       assert (Hj : exists t', join 44 (map member_text (x :: r)) = 34 :: t').
       { cbn [map]. destruct r as [|y r']; cbn [map join]; unfold member_text at 1, print_str; cbn [app]; eexists; reflexivity. }
       destruct Hj as [t' Hj].
-      pose proof (pmembers_print (x :: r) ltac:(congruence) HP Hw f rest) as Hpe.
-      rewrite Hj in *. cbn [app]. cbn [skip_ws]. change (is_ws 34) with false. cbv iota.
+      pose proof (sp_members_print (x :: r) ltac:(congruence) HP Hw f rest) as Hpe.
+      rewrite Hj in *. cbn [app]. cbn [skip_ws]. change (is_space 34) with false. cbv iota.
       change (34 =? 125) with false. cbv iota. cbn [app] in Hpe. rewrite Hpe; [reflexivity|].
       cbn [length] in Hf. rewrite app_length in Hf. cbn [length] in Hf. cbn [length]. lia.
 Qed.
 
-Theorem parse_print j : wfb j = true -> parse_json (print j) = Some j.
+Theorem parse_print j : wfb j = true -> strict_parse (print j) = Some j.
 Proof.
-  intros H. unfold parse_json.
-  pose proof (pval_print j H (S (length (print j))) [] I ltac:(lia)) as Hp.
+  intros H. unfold strict_parse.
+  pose proof (sp_value_print j H (S (length (print j))) [] I ltac:(lia)) as Hp.
   rewrite app_nil_r in Hp. rewrite Hp. reflexivity.
 Qed.
 
